@@ -26,10 +26,44 @@ def oname(o):
     return ",".join("%s=%s" % (k[:3], v) for k, v in sorted(o.items()) if v not in (False, None))
 
 
+def parse_before_registration(R):
+    """HISTORY: every custom type of this harness is first met by the parser while it is still unregistered (both strictness settings, alone and as a
+    bundle member), and only then registered; whatever the parser remembers of the miss must not survive the registration"""
+    import stix2
+    TS = "2016-05-12T08:17:27.000Z"
+    docs = []
+    if "x-verif-obj" not in R["2.1"]["objects"]:
+        docs.append(("2.1", {"type": "x-verif-obj", "spec_version": "2.1", "id": "x-verif-obj--" + U + "01", "created": TS, "modified": TS, "prop": "p"}))
+    if "x-verif-obj" not in R["2.0"]["objects"]:
+        docs.append(("2.0", {"type": "x-verif-obj", "id": "x-verif-obj--" + U + "01", "created": TS, "modified": TS, "prop": "p"}))
+    if "x-verif-sco" not in R["2.1"]["observables"]:
+        docs.append(("2.1", {"type": "x-verif-sco", "spec_version": "2.1", "id": "x-verif-sco--" + U + "01", "prop": "p"}))
+        docs.append(("2.1", {"type": "file", "spec_version": "2.1", "name": "f", "extensions": {"x-verif-ext": {"level": 0}}}))
+        docs.append(("2.1", {"type": "marking-definition", "spec_version": "2.1", "id": "marking-definition--" + U + "01", "created": TS, "definition_type": "x-verif-mark", "definition": {"level": "high"}}))
+    for ver, d in docs:
+        for allow in (True, False):
+            for form in ("dict", "text", "bundle", "versioned"):
+                try:
+                    if form == "dict":
+                        stix2.parse(copy.deepcopy(d), allow_custom=allow)
+                    elif form == "text":
+                        stix2.parse(json.dumps(d), allow_custom=allow)
+                    elif form == "versioned":
+                        stix2.parse(copy.deepcopy(d), allow_custom=allow, version=ver)
+                    else:
+                        b = {"type": "bundle", "id": "bundle--" + U + "0b", "objects": [copy.deepcopy(d)]}
+                        if ver == "2.0":
+                            b["spec_version"] = "2.0"
+                        stix2.parse(b, allow_custom=allow)
+                except Exception:
+                    pass
+
+
 def register_custom():
     import stix2
     from stix2 import properties as P
     R = stix2.registry.STIX2_OBJ_MAPS
+    parse_before_registration(R)
     if "x-verif-obj" not in R["2.1"]["objects"]:
         @stix2.v21.CustomObject("x-verif-obj", [("prop", P.StringProperty(required=True)), ("count", P.IntegerProperty()), ("when", P.TimestampProperty()),
                                                   ("x_extra", P.StringProperty())])
@@ -94,8 +128,14 @@ def extra_objects():
     out.append(("custom-property", "2.1", dict(base, x_foo="bar", x_num=0), True))
     out.append(("custom-property-order", "2.1", dict(base, x_b="b", x_a="a", description="d"), True))
     out.append(("custom-property-20", "2.0", dict(g20.minimal("objects:identity"), x_foo="bar"), True))
+    # numbers in positions the library does not type: they come back from TEXT exactly as they went in
+    nums = {"x_float": 0.7, "x_nested": {"a": [1.1, {"b": 1e22, "c": -0.0, "d": 5e-324}], "e": 2 ** 53 + 1, "f": 1e-7, "g": 123456789.125}, "x_list": [0.1, 0.2, 0.30000000000000004]}
+    out.append(("custom-property-floats", "2.1", dict(base, **nums), True))
+    out.append(("custom-property-floats-20", "2.0", dict(g20.minimal("objects:identity"), **nums), True))
     f = g21.minimal("observables:file")
     out.append(("custom-extension-unregistered", "2.1", dict(f, extensions={"x-unreg-ext": {"a": 1}}), True))
+    out.append(("custom-extension-unregistered-floats", "2.1", dict(f, extensions={"x-unreg-ext": {"a": 0.7, "b": [1.1, 1e22]}}), True))
+    out.append(("extension-definition-unregistered-floats", "2.1", dict(f, extensions={"extension-definition--" + U + "f2": {"extension_type": "property-extension", "a": 0.7, "b": [1.1, 1e22]}}), False))
     out.append(("registered-extension", "2.1", dict(f, extensions={"x-verif-ext": {"level": 0, "note": ""}}), False))
     out.append(("registered-toplevel-extension", "2.1", dict(base, ext_rank=3, ext_flag=False, extensions={"extension-definition--" + U + "f1": {"extension_type": "toplevel-property-extension"}}), False))
     out.append(("registered-custom-object", "2.1", {"type": "x-verif-obj", "spec_version": "2.1", "id": "x-verif-obj--" + U + "01", "created": TS, "modified": TS, "prop": "p", "count": 0,
@@ -119,7 +159,7 @@ def extra_objects():
         if ver == "2.0":
             b["spec_version"] = "2.0"
         out.append(("bundle-of-all-minimal", ver, b, False))
-        b2 = {"type": "bundle", "id": "bundle--" + U + "03", "objects": [members[0], {"type": "x-unreg", "id": "x-unreg--" + U + "04", "created": TS, "modified": TS, "foo": [1, {"a": None}]}]}
+        b2 = {"type": "bundle", "id": "bundle--" + U + "03", "objects": [members[0], {"type": "x-unreg", "id": "x-unreg--" + U + "04", "created": TS, "modified": TS, "foo": [1, {"a": None}, 0.7, 1e22]}]}
         if ver == "2.0":
             b2["spec_version"] = "2.0"
         else:
